@@ -120,9 +120,11 @@ struct Run : ContBase {
         if (api == 2 && it != m.end() && !it->second.isstr) api = 0;
         bool newmem = s.boolean();
         Buf *kb = Buf::cstr(k);
+        bool nosz = api == 0 && s.chance(1, 8);            // the size out-parameter is optional
         size_t sz = 424242; void *p = nullptr; int64_t iv = 0;
+        if (nosz) { if (it != m.end()) sz = it->second.val.size(); c.tag("null_size_outparam"); }
         errno = poison;
-        if (api == 0) p = qhashtbl_get(t, kb->c(), &sz, newmem);
+        if (api == 0) p = qhashtbl_get(t, kb->c(), nosz ? nullptr : &sz, newmem);
         else if (api == 1) p = qhashtbl_getstr(t, kb->c(), newmem);
         else iv = qhashtbl_getint(t, kb->c());
         int e = errno;
